@@ -93,8 +93,23 @@ func waitStop(w *world) string {
 	if expect {
 		timeout = 6 * time.Second
 	}
+	// TaskQueueSet.Iterate has a yield point keyed with the main queue's name (C03's): a wait that goes through
+	// Iterate must not be parked by this world's subscription (the workers are not stepped any more)
+	if q, ok := w.qs[1]; ok {
+		sched.Unsubscribe(q.name)
+	}
 	t0 := time.Now()
-	w.tqs.WaitStopWithTimeout(timeout)
+	done := make(chan struct{})
+	go func() {
+		w.tqs.WaitStopWithTimeout(timeout)
+		close(done)
+	}()
+	select {
+	case <-done:
+	case <-time.After(timeout + 10*time.Second):
+		hangs.Add(1) // the wait does not even end at its timeout
+		return "false"
+	}
 	if time.Since(t0) < timeout {
 		return "true"
 	}
